@@ -1,6 +1,6 @@
 #!/bin/bash
 # usage: try_seed.sh <seed-dir> <property-id>  -- applies a seeded change to /repo, runs the property's check, reverts.
-SD=$1; ID=$2
+SD=$(realpath $1); ID=$2
 cd /repo || exit 2
 if ! git diff --quiet; then echo "repo dirty"; exit 2; fi
 git apply "$SD/patch.diff" 2>/dev/null || git apply --3way "$SD/patch.diff" 2>/dev/null || { echo "PATCH-DOES-NOT-APPLY $SD"; git checkout -q -- .; exit 3; }
